@@ -287,6 +287,16 @@ def main(argv=None):
             continue
         seen_groups.add(group)
         rep = r.get("replay_done") or replayer.replay(c, ov, r, prop)
+        if not rep.get("reproduced"):
+            # the verifier's model gave no failing input on the real code (abstraction, or no concretiser): the concrete oracle
+            # of the contract, if it names one, is asked for one -- this only adds a replayed input, the verdict is the solver's
+            probe = getattr(c, "undecided_probe", None)
+            if probe:
+                key = (c.cid, json.dumps(probe, sort_keys=True))
+                if key not in probe_cache:
+                    probe_cache[key] = replayer.run_harness(probe["harness"], dict(probe, obligation=r["name"], seed=seed), timeout=300)
+                if probe_cache[key].get("reproduced"):
+                    rep = dict(probe_cache[key], case=probe, note="failing input found by the contract's concrete oracle; the verifier's own model: %r" % (rep.get("detail") or rep.get("case"),))
         path = os.path.join(ROOT, "replays", prop, hashlib.sha1(r["name"].encode()).hexdigest()[:12] + ".json")
         with open(path, "w") as f:
             json.dump(dict(property=prop, obligation=r["name"], overload=ov, model=r.get("model"),
